@@ -310,6 +310,17 @@ func monC02(f *Facts) []Violation {
 		for _, t := range fj.Tasks {
 			deps[t.Name] = t.Deps
 		}
+		// the dependencies as configured in the definition the job was accepted under (the job's own copy is production
+		// state: a change may have written into it)
+		if j.AcceptEv >= 0 {
+			if d := f.dumpBefore(j.AcceptEv + 1); d != nil && d.Defs != nil {
+				if pd, ok := d.Defs.Pipelines[j.Pipeline]; ok && len(pd.Tasks) == len(fj.Tasks) {
+					for tn, td := range pd.Tasks {
+						deps[tn] = td.DependsOn
+					}
+				}
+			}
+		}
 		// "every acyclic depends_on graph is accepted": a job that never started and ends canceled with an error although
 		// its graph is acyclic and it does not carry the reserved variable was refused by the graph builder
 		if isDAG(deps) && !fj.Bad && fj.Canceled && !fj.Started() && len(j.Runs) == 0 && strings.Contains(fj.LastError, "cycle") {
@@ -478,6 +489,17 @@ func monC08(f *Facts, explicitCancel bool) []Violation {
 		for _, t := range fj.Tasks {
 			deps[t.Name] = t.Deps
 			allow[t.Name] = t.Allow
+		}
+		// as configured in the definition the job was accepted under (see monC02)
+		if j.AcceptEv >= 0 {
+			if d := f.dumpBefore(j.AcceptEv + 1); d != nil && d.Defs != nil {
+				if pd, ok := d.Defs.Pipelines[j.Pipeline]; ok && len(pd.Tasks) == len(fj.Tasks) {
+					for tn, td := range pd.Tasks {
+						deps[tn] = td.DependsOn
+						allow[tn] = td.AllowFailure
+					}
+				}
+			}
 		}
 		var anc func(t string, seen map[string]bool)
 		anc = func(t string, seen map[string]bool) {
